@@ -217,7 +217,7 @@ class C04(Prop):
     REAL_VS_STUB = {'real': ['all dataflows code of the generated pipeline', 'parallelize.py under seam B'],
                     'stub': ['file-system seam (io.FileIO subclass, os wrappers)', 'KVFile twin (counts ops, raises sqlite3.OperationalError)', 'seam B twins for the parallelize pipelines']}
     PROBES = ['fault-not-reached', 'observer-after-failure', 'fault-in-package-phase', 'fault-at-exhaustion', 'fault-after-all', 'io-error-fired', 'kv-error-fired',
-              'source-raise-in-sample', 'source-raise-after-sample', 'parallelize-upstream-raise', 'parallelize-downstream-raise', 'prebuilt-processor-error', 'poison-fired']
+              'source-raise-in-sample', 'source-raise-after-sample', 'parallelize-upstream-raise', 'parallelize-downstream-raise', 'prebuilt-processor-error', 'poison-fired'] + ['in-failed-pipeline:' + k for k in sorted(ST.GENS)]
     TIERS = {'quick': dict(runs=900, wall=100, run_wall=120),
              'thorough': dict(runs=25000, wall=1700, run_wall=300)}
     SHRINK_FROZEN = ('fields', 'gen_stats')
@@ -310,6 +310,8 @@ class C04(Prop):
         if fault.get('exc') == 'df.ProcessorError':
             ctx.probe('prebuilt-processor-error')
         ctx.nt(fault['kind'], fault.get('phase'), fault.get('exc') or fault.get('errno'), hit, base['api'])
+        for sp in steps:
+            ctx.probe('in-failed-pipeline:' + sp['step'])
         ctx.sample = {'steps': steps, 'fault': fault, 'api': base['api'], 'sources': [len(t['rows']) for t in sc['tables']]}
         if r['status'] == 'ok':
             ctx.violation('returned-normally', '%s:%s' % (fault['kind'], fault.get('exc') or fault.get('errno') or ''),
